@@ -1,3 +1,258 @@
+(* Proofs/AddSub.v — C01: add / sub / neg / abs families are exact modulo 2^BITS
+   in every overflow mode.  Main theorems about Model/AddSub.v. *)
 From Bnum Require Import Base Prim.
 From Bnum.Model Require Import Digit Core Shift AddSub.
-From Bnum.Proofs Require Import AddSubLemmas Bitwise.
+From Bnum.Proofs Require Export AddSubLemmas Bitwise.
+
+(* ================= 1. unsigned overflowing add / sub ================= *)
+
+Theorem U_overflowing_add_ok w n a b : 0 < w -> wf w n a -> wf w n b ->
+  let '(r, f) := U_overflowing_add w a b in
+  wf w n r /\ uval w r = (uval w a + uval w b) mod Mod w n /\
+  f = (Mod w n <=? uval w a + uval w b).
+Proof.
+  intros Hw Ha Hb. pose proof (add_loop_mod w n a b false ltac:(lia) Ha Hb) as H.
+  unfold U_overflowing_add. destruct (add_loop w a b false) as [r f].
+  cbn [b2z] in H. rewrite Z.add_0_r in H. exact H.
+Qed.
+
+Theorem U_overflowing_sub_ok w n a b : 0 < w -> wf w n a -> wf w n b ->
+  let '(r, f) := U_overflowing_sub w a b in
+  wf w n r /\ uval w r = (uval w a - uval w b) mod Mod w n /\
+  f = (uval w a <? uval w b).
+Proof.
+  intros Hw Ha Hb. pose proof (sub_loop_mod w n a b false ltac:(lia) Ha Hb) as H.
+  unfold U_overflowing_sub. destruct (sub_loop w a b false) as [r f].
+  cbn [b2z] in H. rewrite Z.sub_0_r in H. destruct H as (Hr & Hv & Hf).
+  split; [exact Hr|]. split; [exact Hv|]. rewrite Hf.
+  destruct (Z.ltb_spec (uval w a - uval w b) 0), (Z.ltb_spec (uval w a) (uval w b)); try reflexivity; lia.
+Qed.
+
+(* ================= 2. add_signed, neg (unsigned) ================= *)
+
+Theorem U_overflowing_add_signed_ok w n a b : 0 < w -> (0 < n)%nat -> wf w n a -> wf w n b ->
+  let '(r, f) := U_overflowing_add_signed w a b in
+  wf w n r /\ uval w r = (uval w a + sval w b) mod Mod w n /\
+  f = negb (inU (Mod w n) (uval w a + sval w b)).
+Proof.
+  intros Hw Hn Ha Hb. destruct n as [|k]; [lia|].
+  pose proof (U_overflowing_add_ok w _ a b Hw Ha Hb) as H.
+  unfold U_overflowing_add_signed. destruct (U_overflowing_add w a b) as [r f].
+  destruct H as (Hr & Hv & Hf). split; [exact Hr|].
+  rewrite (is_negative_uval w k b Hw Hb). rewrite (sval_as_uval w _ b Hb).
+  pose proof (uval_bounds w _ _ ltac:(lia) Ha). pose proof (uval_bounds w _ _ ltac:(lia) Hb).
+  pose proof (Mod_even' w k Hw). set (M := Mod w (S k)) in *.
+  unfold inU. subst f.
+  destruct (Z.leb_spec (M / 2) (uval w b)); cbn [b2z].
+  - split.
+    + rewrite Hv. replace (uval w a + (uval w b - M * 1)) with (uval w a + uval w b + (-1) * M) by ring.
+      rewrite Z_mod_plus_full. reflexivity.
+    + split_ifs.
+  - rewrite Z.mul_0_r, Z.sub_0_r. split; [exact Hv|]. split_ifs.
+Qed.
+
+Theorem U_overflowing_neg_ok w n a : 0 < w -> (0 < n)%nat -> wf w n a ->
+  let '(r, f) := U_overflowing_neg w a in
+  wf w n r /\ uval w r = (- uval w a) mod Mod w n /\
+  f = negb (uval w a =? 0).
+Proof.
+  intros Hw Hn Ha. destruct n as [|k]; [lia|].
+  unfold U_overflowing_neg. rewrite (wf_length _ _ _ Ha).
+  pose proof (U_overflowing_add_ok w _ (bitnot w a) (ONE (S k)) Hw
+                (bitnot_wf w _ a ltac:(lia) Ha) (ONE_wf w _ Hw)) as H.
+  destruct (U_overflowing_add w (bitnot w a) (ONE (S k))) as [r c].
+  destruct H as (Hr & Hv & Hf). split; [exact Hr|].
+  rewrite (bitnot_uval w (S k)) in Hv, Hf by (assumption || lia). rewrite ONE_uval in Hv, Hf.
+  pose proof (uval_bounds w _ _ ltac:(lia) Ha). set (M := Mod w (S k)) in *.
+  split.
+  - rewrite Hv. replace (M - 1 - uval w a + 1) with (- uval w a + 1 * M) by ring.
+    apply Z_mod_plus_full.
+  - subst c. destruct (Z.eqb_spec (uval w a) 0); split_ifs.
+Qed.
+
+(* ================= 3. carrying_add / borrowing_sub (unsigned) ================= *)
+
+Theorem U_carrying_add_ok w n a b c : 0 < w -> (0 < n)%nat -> wf w n a -> wf w n b ->
+  let '(r, f) := U_carrying_add w a b c in
+  wf w n r /\ uval w r = (uval w a + uval w b + b2z c) mod Mod w n /\
+  f = (Mod w n <=? uval w a + uval w b + b2z c).
+Proof.
+  intros Hw Hn Ha Hb. destruct n as [|k]; [lia|].
+  pose proof (U_overflowing_add_ok w _ a b Hw Ha Hb) as H1.
+  unfold U_carrying_add. rewrite (wf_length _ _ _ Ha).
+  destruct (U_overflowing_add w a b) as [s1 o1]. destruct H1 as (Hr1 & Hv1 & Hf1).
+  destruct c; cbn [b2z].
+  - pose proof (U_overflowing_add_ok w _ s1 (ONE (S k)) Hw Hr1 (ONE_wf w _ Hw)) as H2.
+    destruct (U_overflowing_add w s1 (ONE (S k))) as [s2 o2]. destruct H2 as (Hr2 & Hv2 & Hf2).
+    split; [exact Hr2|]. rewrite ONE_uval in Hv2, Hf2.
+    pose proof (uval_bounds w _ _ ltac:(lia) Ha). pose proof (uval_bounds w _ _ ltac:(lia) Hb).
+    pose proof (Mod_pos w (S k) ltac:(lia)). set (M := Mod w (S k)) in *.
+    rewrite Hv2, Hf2, Hf1, Hv1.
+    destruct (Z.leb_spec M (uval w a + uval w b)).
+    + rewrite (mod_up M (uval w a + uval w b)) by lia.
+      rewrite (mod_up M (uval w a + uval w b + 1)) by lia.
+      split; [rewrite Z.mod_small by lia; ring | split_ifs].
+    + rewrite (Z.mod_small (uval w a + uval w b)) by lia. split; [reflexivity | split_ifs].
+  - rewrite Z.add_0_r. auto.
+Qed.
+
+Theorem U_borrowing_sub_ok w n a b c : 0 < w -> (0 < n)%nat -> wf w n a -> wf w n b ->
+  let '(r, f) := U_borrowing_sub w a b c in
+  wf w n r /\ uval w r = (uval w a - uval w b - b2z c) mod Mod w n /\
+  f = (uval w a <? uval w b + b2z c).
+Proof.
+  intros Hw Hn Ha Hb. destruct n as [|k]; [lia|].
+  pose proof (U_overflowing_sub_ok w _ a b Hw Ha Hb) as H1.
+  unfold U_borrowing_sub. rewrite (wf_length _ _ _ Ha).
+  destruct (U_overflowing_sub w a b) as [s1 o1]. destruct H1 as (Hr1 & Hv1 & Hf1).
+  destruct c; cbn [b2z].
+  - pose proof (U_overflowing_sub_ok w _ s1 (ONE (S k)) Hw Hr1 (ONE_wf w _ Hw)) as H2.
+    destruct (U_overflowing_sub w s1 (ONE (S k))) as [s2 o2]. destruct H2 as (Hr2 & Hv2 & Hf2).
+    split; [exact Hr2|]. rewrite ONE_uval in Hv2, Hf2.
+    pose proof (uval_bounds w _ _ ltac:(lia) Ha). pose proof (uval_bounds w _ _ ltac:(lia) Hb).
+    pose proof (Mod_pos w (S k) ltac:(lia)). set (M := Mod w (S k)) in *.
+    rewrite Hv2, Hf2, Hf1, Hv1.
+    destruct (Z.ltb_spec (uval w a) (uval w b)).
+    + rewrite (mod_down M (uval w a - uval w b)) by lia.
+      rewrite (mod_down M (uval w a - uval w b - 1)) by lia.
+      split; [rewrite Z.mod_small by lia; ring | split_ifs].
+    + rewrite (Z.mod_small (uval w a - uval w b)) by lia. split; [reflexivity | split_ifs].
+  - rewrite Z.sub_0_r, Z.add_0_r. auto.
+Qed.
+
+(* ================= 4. signed overflowing family ================= *)
+
+Theorem I_overflowing_add_ok w n a b : 0 < w -> (0 < n)%nat -> wf w n a -> wf w n b ->
+  let '(r, f) := I_overflowing_add w a b in
+  wf w n r /\ sval w r = wrapS (Mod w n) (sval w a + sval w b) /\
+  f = negb (inS (Mod w n) (sval w a + sval w b)).
+Proof.
+  intros Hw Hn Ha Hb. destruct n as [|k]; [lia|].
+  pose proof (iadd_loop_spec w Hw k a b false Ha Hb) as H.
+  unfold I_overflowing_add. destruct (iadd_loop w a b false) as [r f].
+  cbn [b2z] in H. rewrite Z.add_0_r in H. exact H.
+Qed.
+
+Theorem I_overflowing_sub_ok w n a b : 0 < w -> (0 < n)%nat -> wf w n a -> wf w n b ->
+  let '(r, f) := I_overflowing_sub w a b in
+  wf w n r /\ sval w r = wrapS (Mod w n) (sval w a - sval w b) /\
+  f = negb (inS (Mod w n) (sval w a - sval w b)).
+Proof.
+  intros Hw Hn Ha Hb. destruct n as [|k]; [lia|].
+  pose proof (isub_loop_spec w Hw k a b false Ha Hb) as H.
+  unfold I_overflowing_sub. destruct (isub_loop w a b false) as [r f].
+  cbn [b2z] in H. rewrite Z.sub_0_r in H. exact H.
+Qed.
+
+Theorem I_overflowing_neg_ok w n a : 0 < w -> (0 < n)%nat -> wf w n a ->
+  let '(r, f) := I_overflowing_neg w a in
+  wf w n r /\ sval w r = wrapS (Mod w n) (- sval w a) /\
+  f = negb (inS (Mod w n) (- sval w a)).
+Proof.
+  intros Hw Hn Ha. destruct n as [|k]; [lia|].
+  exact (ineg_loop_spec w Hw k a Ha).
+Qed.
+
+Theorem I_overflowing_abs_ok w n a : 0 < w -> (0 < n)%nat -> wf w n a ->
+  let '(r, f) := I_overflowing_abs w a in
+  wf w n r /\ sval w r = wrapS (Mod w n) (Z.abs (sval w a)) /\
+  f = negb (inS (Mod w n) (Z.abs (sval w a))).
+Proof.
+  intros Hw Hn Ha. destruct n as [|k]; [lia|].
+  unfold I_overflowing_abs. rewrite (is_negative_spec w k a Hw Ha).
+  destruct (Z.ltb_spec (sval w a) 0).
+  - rewrite Z.abs_neq by lia. exact (ineg_loop_spec w Hw k a Ha).
+  - rewrite Z.abs_eq by lia.
+    pose proof (sval_range w (S k) a Hw ltac:(lia) Ha). pose proof (Mod_even' w k Hw).
+    split; [exact Ha|]. split.
+    + symmetry. apply wrapS_id; [apply Mod_pos; lia | assumption | assumption].
+    + symmetry. apply negb_inS_false; assumption.
+Qed.
+
+Theorem I_overflowing_add_unsigned_ok w n a b : 0 < w -> (0 < n)%nat -> wf w n a -> wf w n b ->
+  let '(r, f) := I_overflowing_add_unsigned w a b in
+  wf w n r /\ sval w r = wrapS (Mod w n) (sval w a + uval w b) /\
+  f = negb (inS (Mod w n) (sval w a + uval w b)).
+Proof.
+  intros Hw Hn Ha Hb.
+  pose proof (I_overflowing_add_ok w n a b Hw Hn Ha Hb) as H.
+  destruct n as [|k]; [lia|].
+  unfold I_overflowing_add_unsigned. destruct (I_overflowing_add w a b) as [r f].
+  destruct H as (Hr & Hv & Hf). split; [exact Hr|].
+  rewrite (is_negative_uval w k b Hw Hb). rewrite (sval_as_uval w _ b Hb) in Hv, Hf.
+  pose proof (sval_range w (S k) a Hw ltac:(lia) Ha). pose proof (uval_bounds w _ _ ltac:(lia) Hb).
+  pose proof (Mod_even' w k Hw). pose proof (Mod_pos w (S k) ltac:(lia)). set (M := Mod w (S k)) in *.
+  destruct (Z.leb_spec (M / 2) (uval w b)); cbn [b2z] in *.
+  - split.
+    + rewrite Hv. replace (sval w a + (uval w b - M * 1)) with (sval w a + uval w b + (-1) * M) by ring.
+      apply wrapS_shift. lia.
+    + subst f. unfold inS. split_ifs.
+  - rewrite Z.mul_0_r, Z.sub_0_r in Hv, Hf. split; [exact Hv|]. subst f. destruct (inS M _); reflexivity.
+Qed.
+
+Theorem I_overflowing_sub_unsigned_ok w n a b : 0 < w -> (0 < n)%nat -> wf w n a -> wf w n b ->
+  let '(r, f) := I_overflowing_sub_unsigned w a b in
+  wf w n r /\ sval w r = wrapS (Mod w n) (sval w a - uval w b) /\
+  f = negb (inS (Mod w n) (sval w a - uval w b)).
+Proof.
+  intros Hw Hn Ha Hb.
+  pose proof (I_overflowing_sub_ok w n a b Hw Hn Ha Hb) as H.
+  destruct n as [|k]; [lia|].
+  unfold I_overflowing_sub_unsigned. destruct (I_overflowing_sub w a b) as [r f].
+  destruct H as (Hr & Hv & Hf). split; [exact Hr|].
+  rewrite (is_negative_uval w k b Hw Hb). rewrite (sval_as_uval w _ b Hb) in Hv, Hf.
+  pose proof (sval_range w (S k) a Hw ltac:(lia) Ha). pose proof (uval_bounds w _ _ ltac:(lia) Hb).
+  pose proof (Mod_even' w k Hw). pose proof (Mod_pos w (S k) ltac:(lia)). set (M := Mod w (S k)) in *.
+  destruct (Z.leb_spec (M / 2) (uval w b)); cbn [b2z] in *.
+  - split.
+    + rewrite Hv. replace (sval w a - (uval w b - M * 1)) with (sval w a - uval w b + 1 * M) by ring.
+      apply wrapS_shift. lia.
+    + subst f. unfold inS. split_ifs.
+  - rewrite Z.mul_0_r, Z.sub_0_r in Hv, Hf. split; [exact Hv|]. subst f. destruct (inS M _); reflexivity.
+Qed.
+
+Theorem I_carrying_add_ok w n a b c : 0 < w -> 1 < bits w n -> wf w n a -> wf w n b ->
+  let '(r, f) := I_carrying_add w a b c in
+  wf w n r /\ sval w r = wrapS (Mod w n) (sval w a + sval w b + b2z c) /\
+  f = negb (inS (Mod w n) (sval w a + sval w b + b2z c)).
+Proof.
+  intros Hw Hbits Ha Hb.
+  destruct n as [|k]; [unfold bits in Hbits; lia|].
+  pose proof (I_overflowing_add_ok w (S k) a b Hw ltac:(lia) Ha Hb) as H1.
+  unfold I_carrying_add. rewrite (wf_length _ _ _ Ha).
+  destruct (I_overflowing_add w a b) as [s1 o1]. destruct H1 as (Hr1 & Hv1 & Hf1).
+  pose proof (Mod_even' w k Hw). pose proof (Mod_pos w (S k) ltac:(lia)).
+  pose proof (signed_step_add (Mod w (S k)) (sval w a) (sval w b) c ltac:(lia) ltac:(assumption)
+                (sval_range w (S k) a Hw ltac:(lia) Ha) (sval_range w (S k) b Hw ltac:(lia) Hb)) as E.
+  destruct c.
+  - pose proof (I_overflowing_add_ok w (S k) s1 (ONE (S k)) Hw ltac:(lia) Hr1 (ONE_wf w _ Hw)) as H2.
+    destruct (I_overflowing_add w s1 (ONE (S k))) as [s2 o2]. destruct H2 as (Hr2 & Hv2 & Hf2).
+    rewrite (ONE_sval w k Hw Hbits) in Hv2, Hf2. rewrite Hv1 in Hv2, Hf2.
+    injection E as E1 E2.
+    split; [exact Hr2|]. split; [rewrite Hv2; exact E1 | rewrite Hf1, Hf2; exact E2].
+  - injection E as E1 E2.
+    split; [exact Hr1|]. split; [rewrite Hv1; exact E1 | rewrite Hf1; exact E2].
+Qed.
+
+Theorem I_borrowing_sub_ok w n a b c : 0 < w -> 1 < bits w n -> wf w n a -> wf w n b ->
+  let '(r, f) := I_borrowing_sub w a b c in
+  wf w n r /\ sval w r = wrapS (Mod w n) (sval w a - sval w b - b2z c) /\
+  f = negb (inS (Mod w n) (sval w a - sval w b - b2z c)).
+Proof.
+  intros Hw Hbits Ha Hb.
+  destruct n as [|k]; [unfold bits in Hbits; lia|].
+  pose proof (I_overflowing_sub_ok w (S k) a b Hw ltac:(lia) Ha Hb) as H1.
+  unfold I_borrowing_sub. rewrite (wf_length _ _ _ Ha).
+  destruct (I_overflowing_sub w a b) as [s1 o1]. destruct H1 as (Hr1 & Hv1 & Hf1).
+  pose proof (Mod_even' w k Hw). pose proof (Mod_pos w (S k) ltac:(lia)).
+  pose proof (signed_step_sub (Mod w (S k)) (sval w a) (sval w b) c ltac:(lia) ltac:(assumption)
+                (sval_range w (S k) a Hw ltac:(lia) Ha) (sval_range w (S k) b Hw ltac:(lia) Hb)) as E.
+  destruct c.
+  - pose proof (I_overflowing_sub_ok w (S k) s1 (ONE (S k)) Hw ltac:(lia) Hr1 (ONE_wf w _ Hw)) as H2.
+    destruct (I_overflowing_sub w s1 (ONE (S k))) as [s2 o2]. destruct H2 as (Hr2 & Hv2 & Hf2).
+    rewrite (ONE_sval w k Hw Hbits) in Hv2, Hf2. rewrite Hv1 in Hv2, Hf2.
+    injection E as E1 E2.
+    split; [exact Hr2|]. split; [rewrite Hv2; exact E1 | rewrite Hf1, Hf2; exact E2].
+  - injection E as E1 E2.
+    split; [exact Hr1|]. split; [rewrite Hv1; exact E1 | rewrite Hf1; exact E2].
+Qed.
